@@ -352,6 +352,17 @@ def judge(case, res, log, handles):
                                    if e['kind'] == 'load'])
             if outs[0]['to'] != W:
                 res.stats['dontcare_switch_out_to_arg'] += 1
+            if outs[0]['seq'] > ins[0]['seq']:
+                # the world is left before the other one is entered (for two
+                # different worlds a late on_switch_out would be held until
+                # the left world is entered again; the same must hold when
+                # both are one world)
+                return fail(r, 'switch-order', 'on_switch_out of the world '
+                            'being left was delivered after on_switch_in of '
+                            'the world being entered', ['on_switch_out',
+                                                        'on_switch_in'],
+                            [e['kind'] for e in window
+                             if e['kind'].startswith('on_switch')])
             load_cbs = [e['seq'] for e in log[:nxt['seq']]
                         if e['w'] == W and e['kind'] in ('on_add',
                                                          'on_world_load')]
